@@ -99,6 +99,13 @@ type (
 		code int
 		path *MuxPath
 	}
+
+	// routeCacheKey is the key of the route cache. The three parts are kept
+	// apart, so that different requests never share a key (concatenating
+	// them would make host "a" + method "GET" equal to host "aG" + method "ET").
+	routeCacheKey struct {
+		host, method, path string
+	}
 )
 
 var (
@@ -144,10 +151,13 @@ func allowIP(ipFilter *ipfilter.IPFilter, ip string) bool {
 	return ipFilter.Allow(ip)
 }
 
+func newRouteCacheKey(req *httpprot.Request) routeCacheKey {
+	return routeCacheKey{host: req.Host(), method: req.Method(), path: req.Path()}
+}
+
 func (mi *muxInstance) getRouteFromCache(req *httpprot.Request) *route {
 	if mi.cache != nil {
-		key := stringtool.Cat(req.Host(), req.Method(), req.Path())
-		if value, ok := mi.cache.Get(key); ok {
+		if value, ok := mi.cache.Get(newRouteCacheKey(req)); ok {
 			return value.(*route)
 		}
 	}
@@ -156,8 +166,7 @@ func (mi *muxInstance) getRouteFromCache(req *httpprot.Request) *route {
 
 func (mi *muxInstance) putRouteToCache(req *httpprot.Request, r *route) {
 	if mi.cache != nil {
-		key := stringtool.Cat(req.Host(), req.Method(), req.Path())
-		mi.cache.Add(key, r)
+		mi.cache.Add(newRouteCacheKey(req), r)
 	}
 }
 
